@@ -75,7 +75,7 @@ func (m *urlModule) buildParamsFromObject(o *goja.Object) searchParams {
 		if err != nil {
 			panic(err)
 		}
-		m.r.ForOf(pairs, func(pair goja.Value) bool {
+		m.forOf(pairs, func(pair goja.Value) bool {
 			p := pair.ToObject(m.r)
 			name, value := p.Get("0"), p.Get("1")
 			if name != nil && value != nil {
@@ -95,15 +95,58 @@ func (m *urlModule) buildParamsFromObject(o *goja.Object) searchParams {
 	return query
 }
 
+// forOf walks an iterable like a for-of loop.  Unlike Runtime.ForOf it checks every step of the iterator protocol:
+// an iterator without a callable next(), or a next() that does not return an object, is a TypeError for the script
+// (Runtime.ForOf calls a nil function in that case, a Go panic the script cannot catch).
+func (m *urlModule) forOf(iterable goja.Value, step func(goja.Value) bool) {
+	obj := iterable.ToObject(m.r)
+	method, ok := goja.AssertFunction(obj.GetSymbol(goja.SymIterator))
+	if !ok {
+		panic(m.r.NewTypeError("object is not iterable"))
+	}
+	res, err := method(obj)
+	if err != nil {
+		panic(err)
+	}
+	iter, ok := res.(*goja.Object)
+	if !ok {
+		panic(m.r.NewTypeError("Result of the Symbol.iterator method is not an object"))
+	}
+	next, ok := goja.AssertFunction(iter.Get("next"))
+	if !ok {
+		panic(m.r.NewTypeError("iterator.next is not a function"))
+	}
+	for {
+		res, err := next(iter)
+		if err != nil {
+			panic(err)
+		}
+		r, ok := res.(*goja.Object)
+		if !ok {
+			panic(m.r.NewTypeError("Iterator result is not an object"))
+		}
+		if done := r.Get("done"); done != nil && done.ToBoolean() {
+			return
+		}
+		value := r.Get("value")
+		if value == nil {
+			value = goja.Undefined()
+		}
+		if !step(value) {
+			return
+		}
+	}
+}
+
 func (m *urlModule) buildParamsFromIterable(o *goja.Object) searchParams {
 	var query searchParams
 
-	m.r.ForOf(o, func(val goja.Value) bool {
+	m.forOf(o, func(val goja.Value) bool {
 		obj := val.ToObject(m.r)
 		var name, value string
 		i := 0
 		// Use ForOf to determine if the object is iterable
-		m.r.ForOf(obj, func(val goja.Value) bool {
+		m.forOf(obj, func(val goja.Value) bool {
 			if i == 0 {
 				name = val.String()
 				i++
